@@ -337,12 +337,20 @@ func c14FuzzOne(data []byte) string {
 			return fmt.Sprintf("descriptor %d parsed as tag %#x length %d, the loop holds tag %#x length %d (shifted): %x", i, d.Tag, d.Length, tags[i], len(bodies[i]), loop)
 		}
 	}
+	total := 0
 	for _, d := range ds {
-		if len(ref.DescriptorBody(d)) > 255 {
+		l := len(ref.DescriptorBody(d))
+		if l > 255 {
 			// a malformed body can decode to a value that no descriptor can hold (e.g. a service name running past the
 			// declared length): outside the writer's domain
 			return ""
 		}
+		total += 2 + l
+	}
+	if total > 0xfff {
+		// values that were parsed from a loop of up to 4095 bytes can need more than that when written back (fixed-size
+		// fields are padded, reserved bytes restored): no 12-bit loop length can announce them, outside the writer's domain
+		return ""
 	}
 	var out bytes.Buffer
 	n, err := astits.VerifWriteDescriptorsWithLength(&out, ds)
